@@ -249,6 +249,12 @@ func C08(o *core.Options) int {
 	r.Assume("the production cache (theine) honours Get/Set/Delete/TTL; eviction is not exercised here (no TTL expiry during a run)",
 		"store contents fixed during a history; planner strategy is the server's own choice (a cached answer is accepted if ANY cache-less run gives it)")
 	if o.Replay != "" {
+		var probe struct {
+			Q1 *itReq `json:"first_request"`
+		}
+		if err := core.LoadReplay(o.Replay, &probe); err == nil && probe.Q1 != nil {
+			return faultReplay(o, r, queryCacheCfg)
+		}
 		fmt.Println("replay: re-run the check; the violating history is printed with the VIOLATION line (histories are <=3 requests)")
 		return 2
 	}
@@ -382,5 +388,9 @@ func C08(o *core.Options) int {
 	close(statesCh)
 	<-done
 	r.States, r.Transitions, r.Traces = states, transitions, transitions
+	// faulted histories: <q1 cancelled / failing at the k-th datastore operation, q2> with the query cache on:
+	// a failed or cancelled evaluation must not leave an entry that changes a later answer
+	r.Assume("faulted histories <q1 with cancellation or a datastore error at the k-th datastore operation for every k, q2 undisturbed> over family worlds (every 30th class without conditions in quick, every 3rd in thorough), default and weighted-graph engines: q2 must answer like the reference or the cache-less server")
+	faultSweep(o, r, queryCacheCfg, 30, 3)
 	return r.Finish()
 }
